@@ -8,7 +8,7 @@ The callable records every argument it is actually called with (in-process calls
 import numpy as np
 
 KINDS = ['gauss', 'two', 'plateau', 'funnel', 'wrap', 'ring']
-BLOBS = ['none', 'float', 'int', 'f32', 'multi', 'array', 'bool2', 'bytes', 'struct']
+BLOBS = ['none', 'float', 'int', 'f32', 'multi', 'array', 'bool2', 'bytes', 'struct', 'str']
 PRIORS = ['id', 'affine', 'inplace', 'Prior', 'PriorArr']
 
 
@@ -144,6 +144,8 @@ class Model:
             return (('%07d' % code).encode(),)
         if b == 'struct':
             return (int(code), float(lv))
+        if b == 'str':
+            return ('%07d' % code,)
         raise ValueError(b)
 
     def decode_blob(self, row):
@@ -160,6 +162,8 @@ class Model:
             return int(row[1]) if bool(row[0]) == bool(int(row[1]) % 2) else -1
         if b == 'bytes':
             return int(bytes(row).decode())
+        if b == 'str':
+            return int(str(row))
         return 0
 
     def _theta_rows(self, args):
